@@ -12,6 +12,8 @@ from pulsarbat import Phase
 
 from .. import exact, gen, probes
 
+from ..replay import wl_R
+
 RULE = ("counts 0..+-2^52 by magnitude decade x fractions {uniform, +-1/2, +-1/4, tiny (1e-300..1e-17), unnormalised (n, 7.3)} x operand kind "
         "{int, float, np.float64, np.float32, np.int64, 0-d array, n-d array, Quantity[cycle], Quantity[dimensionless/percent], Phase} x "
         "both operand orders x real/imaginary, for construction (one and two numbers), + - neg pos abs, * / by dimensionless factors "
@@ -592,10 +594,15 @@ def wl_trig(ctx, idx, rng):
     ctx.describe_case({"count_decade": dec, "frac_kind": fk})
 
 
+def install_universal(ctx):
+    PhaseMonitor(ctx).install()
+    return probes.detach_all
+
+
 def workloads(ctx):
     q = ctx.tier == "quick"
     base = len(COUNT_DECADES) * len(FRAC_KINDS) * len(OPERANDS)
-    return [("arith", base * (12 if q else 80), wl_arith), ("new", 480 * (3 if q else 20), wl_new),
+    return [("R", 1, wl_R), ("arith", base * (12 if q else 80), wl_arith), ("new", 480 * (3 if q else 20), wl_new),
             ("inplace", 378 * (3 if q else 20), wl_inplace),
             ("divmod", 2400 if q else 20000, wl_divmod), ("near_multiple", 600 if q else 3000, wl_near_multiple),
             ("trig", 480 if q else 3200, wl_trig)]
